@@ -23,6 +23,9 @@ pub struct RenameCase {
     pub site: u16,
     /// 0 free name, 1 taken name, 2 free name in a sub-directory
     pub name_kind: u8,
+    /// notes re-sent unchanged through didChange before the rename (indices mod number of notes)
+    #[serde(default)]
+    pub touch: Vec<u8>,
 }
 
 /// (owner, kind, resolved target, text) of every internal link, in order per note
@@ -94,8 +97,8 @@ impl Property for C08 {
         }
     }
     fn strategy(&self, features: &Features, _tier: Tier) -> BoxedStrategy<RenameCase> {
-        (library::library_w(features, 5, 5, 10), 0u16..64, prop_oneof![3 => Just(0u8), 1 => Just(1u8), 1 => Just(2u8)])
-            .prop_map(|(lib, site, name_kind)| RenameCase { lib, site, name_kind })
+        (library::library_w(features, 5, 5, 10), 0u16..64, prop_oneof![3 => Just(0u8), 1 => Just(1u8), 1 => Just(2u8)], proptest::collection::vec(0u8..8, 0..3))
+            .prop_map(|(lib, site, name_kind, touch)| RenameCase { lib, site, name_kind, touch })
             .boxed()
     }
     fn check(&self, case: &RenameCase, stats: &mut Stats) -> Verdict {
@@ -130,11 +133,15 @@ impl Property for C08 {
             return Verdict::Pass { nontrivial: false };
         }
         let (owner, sp, old) = sites[(case.site as usize) % sites.len()].clone();
-        // rename empties the text of links in running text (pinned by rename_test::rename_inline_references)
-        if !feature_on("rename_inline_link") {
+        // rename empties the text of links in running text (pinned by
+        // rename_test::rename_inline_references): outside that finding's own search the empty text
+        // is tolerated for regular links to the renamed note, everything else is still judged;
+        // piped wiki links in running text come out malformed and stay excluded
+        let tolerate_empty_text = !feature_on("rename_inline_link");
+        if tolerate_empty_text {
             let occ = model::link_occurrences(&lib);
-            if occ.iter().any(|o| o.target == old && !o.block_ref) {
-                return Verdict::Discard("known-domain: a link in running text points at the renamed note".into());
+            if occ.iter().any(|o| o.target == old && !o.block_ref && o.kind != scan::LinkKind::Regular) {
+                return Verdict::Discard("known-domain: a wiki link in running text points at the renamed note".into());
             }
         }
         if case.name_kind == 2 && !feature_on("inline_link_in_subdir") {
@@ -150,6 +157,13 @@ impl Property for C08 {
         };
         let _ = Lines::new("");
         let mut srv = Server::start(&lib, &case.lib.ext, false, "");
+        // unchanged re-sends: the edit history must not matter
+        let all_keys: Vec<String> = lib.keys().cloned().collect();
+        for t in &case.touch {
+            let k = &all_keys[(*t as usize) % all_keys.len()];
+            srv.did_change(k, &lib[k]);
+            stats.class("pre-step:didChange");
+        }
         let a = srv.rename(&owner, sp.start.0 as u32, ((sp.start.1 + sp.end.1) / 2) as u32, &new_name);
         let fin = srv.finish("c08");
         let dump = |lib: &Lib, edited: Option<&Lib>| {
@@ -238,6 +252,9 @@ impl Property for C08 {
                 if ka != kb {
                     return Verdict::fail("c08|link-kind", format!("note {}: link kind {} became {}\n{}", k, kind_b, kind_a, dump(&lib, Some(&after))));
                 }
+                if tolerate_empty_text && *target_b == old && text_a.is_empty() {
+                    continue;
+                }
                 if kb != "Wiki" && text_a != text_b {
                     // refreshed to the title of the note it points at is fine for regular links
                     let t_title = if *target_b == old { title.clone() } else { lib.get(target_b).and_then(|t| model::title_of(t)).map(|t| scan::collapse_ws(&t)) };
@@ -281,6 +298,6 @@ impl Property for C08 {
         Verdict::Pass { nontrivial }
     }
     fn sample(&self, case: &RenameCase) -> Value {
-        json!({"notes": case.lib.notes, "site": case.site, "name_kind": case.name_kind})
+        json!({"notes": case.lib.notes, "site": case.site, "name_kind": case.name_kind, "touch": case.touch})
     }
 }
